@@ -330,3 +330,240 @@ PROPS['C05'] = dict(
     assumptions=['bursts that straddle more than 4 adjacent bytes are not generated (the theorem covers any 32 consecutive bits)',
                  'metadata bytes are not checksummed by Pearl and the property does not claim them'],
 )
+
+
+# ---- trace predicates (C07, C12): evaluated on the implementation's tap trace, independent of the model ----
+
+def _events_upto(res, i):
+    evs = []
+    for j in range(i + 1):
+        o = res['impl'][j]
+        if o.startswith('#trace'):
+            for e in o.split()[1:]:
+                evs.append((j, e))
+    return evs
+
+
+def _cfg(res, key, dflt=None):
+    for tok in res['script'][0].split():
+        if tok.startswith(key + '='):
+            return tok[len(key) + 1:]
+    return dflt
+
+
+def _prev_op(res, i):
+    for j in range(i - 1, -1, -1):
+        c = res['script'][j].split()[0]
+        if c not in ('states', 'trace', 'fstates', 'snap', 'dirty', 'res', 'nomodel'):
+            return j
+    return None
+
+
+def _parse_f(o):
+    return [t.split(':') for t in o.split()[1:]]
+
+
+def trace_violation(evs):
+    """(d) header written and synced before any record of a new blob; (e) an index is marked complete only
+    after a sync of its blob covering blob_size and is then synced itself; blob writes never go below the end"""
+    created = {}       # blob -> stage
+    hi = {}            # blob -> highest end written in this session (files created in this session)
+    last_sync = {}     # blob -> size published by the last sync with no write since
+    pending_idx = {}   # index -> awaiting its own sync after the header rewrite
+    seen_blob = set()
+    for j, e in evs:
+        kind, rest = e[0], e[1:]
+        if '!' in rest:
+            rest = rest.split('!')[0]
+        f = rest.split(':')
+        name = f[0]
+        if name.startswith('x') or name == 'o':
+            continue
+        for idx in list(pending_idx):
+            if name == idx and kind != 'S':
+                return f'index {idx} touched again before its sync ({e})'
+        if name.startswith('b'):
+            if kind == 'C':
+                if name in seen_blob:
+                    return f'create of an existing blob file {name}'
+                seen_blob.add(name)
+                created[name] = 0
+                hi[name] = 0
+            elif kind == 'O':
+                seen_blob.add(name)
+            elif kind == 'W':
+                off, ln = int(f[1]), int(f[2])
+                if name in created:
+                    st = created[name]
+                    if st == 0:
+                        if (off, ln) != (0, 20):
+                            return f'first write to new blob {name} is not its 20-byte header: {e}'
+                        created[name] = 1
+                    elif st == 1:
+                        return f'record written to new blob {name} before its header was synced: {e}'
+                    if off < hi[name]:
+                        return f'write below the end of {name}: {e} (end was {hi[name]})'
+                    hi[name] = off + ln
+                last_sync.pop(name, None)
+            elif kind == 'S':
+                if name in created and created[name] == 1:
+                    created[name] = 2
+                last_sync[name] = int(f[1])
+        elif name.startswith('i'):
+            blob = 'b' + name[1:]
+            if kind == 'W' and len(f) > 1 and f[1] == 'hdr':
+                bs = int(f[2][3:]) if f[2][3:].isdigit() else None
+                written = f[3] == 'w=1'
+                if written:
+                    if blob not in last_sync or bs is None or last_sync[blob] < bs:
+                        return (f'index {name} marked complete for blob_size {bs} without a preceding sync of {blob} '
+                                f'covering it (last sync: {last_sync.get(blob)})')
+                    pending_idx[name] = True
+            elif kind == 'S':
+                pending_idx.pop(name, None)
+    return None
+
+
+def oracle_c12(res, i):
+    cmd = res['script'][i].split()
+    out = res['impl'][i]
+    c = cmd[0]
+    if c == 'trace':
+        v = trace_violation(_events_upto(res, i))
+        return 'MISMATCH ' + v if v else None
+    if c == 'fstates' and out.startswith('#fstates'):
+        limit = int(_cfg(res, 'dirty', '33554432'))
+        cur = _parse_f(out)
+        act = [b for b in cur if b[1] == 'a']
+        if act and int(act[0][3]) > limit:
+            return f'MISMATCH un-synced bytes of the active blob {act[0][3]} exceed the limit {limit} at quiescence'
+        j = _prev_op(res, i)
+        if j is not None:
+            pc = res['script'][j].split()[0]
+            if pc == 'fsync' and res['impl'][j] == 'ok' and act and int(act[0][3]) != 0:
+                return f'MISMATCH {act[0][3]} un-synced bytes remain after an explicit fsyncdata'
+            if pc == 'close_active' and res['impl'][j] == 'ok':
+                # the blob that was active before must be fully synced now
+                for k in range(j - 1, -1, -1):
+                    if res['impl'][k].startswith('#fstates'):
+                        prev_act = [b for b in _parse_f(res['impl'][k]) if b[1] == 'a']
+                        if prev_act:
+                            now = [b for b in cur if b[0] == prev_act[0][0]]
+                            if now and int(now[0][3]) != 0:
+                                return f'MISMATCH blob {now[0][0]} has {now[0][3]} un-synced bytes after close of the active blob'
+                        break
+    if c in ('fsync', 'close', 'open', 'restart', 'settle') and out != 'ok':
+        return f'MISMATCH {c}: {out}'
+    return None
+
+
+def oracle_c07(res, i):
+    cmd = res['script'][i].split()
+    out = res['impl'][i]
+    c = cmd[0]
+    if c == 'snap' and out != 'snap ok':
+        return f'MISMATCH {out}'
+    if c == 'trace':
+        if len(cmd) > 1 and cmd[1] == 'q' and out.strip() != '#trace':
+            return f'MISMATCH queries issued file operations: {out}'
+        v = trace_violation(_events_upto(res, i))
+        if v and ('below the end' in v or 'existing blob' in v):
+            return 'MISMATCH ' + v
+    if c in ('restart', 'open') and out != 'ok':
+        return f'MISMATCH init failed: {out}'
+    return None
+
+
+def sync_features(lines):
+    f = set()
+    for l in lines:
+        t = l.split()
+        if t[0] == 'cfg':
+            for tok in t[1:]:
+                if tok.startswith(('dirty=', 'rt=')):
+                    f.add(tok)
+        elif t[0] in ('fsync', 'close_active', 'settle', 'restart', 'force', 'free', 'close_active_bg', 'd'):
+            f.add('op:' + t[0])
+        elif t[0] == 'w':
+            f.add('write ' + ('small' if int(t[4]) <= 4000 else 'two-buffer' if int(t[4]) < 81000 else 'background'))
+    return f
+
+
+PROPS['C12'] = dict(
+    gen=lambda rng, tier: gen.sync_scenario(rng, size=tier),
+    p_cmds={'trace', 'fstates', 'fsync', 'close', 'open', 'dirty'},
+    impl_only_cmds={'trace', 'fstates', 'dirty'},   # judged by the trace predicates until the L6 model prints them
+    oracle_cmds={'states'}, py_oracle=oracle_c12,
+    count={'quick': 80, 'thorough': 1200}, timeout=1800,
+    nontrivial=lambda lines: sum(1 for l in lines if l.split()[0] in ('fsync', 'close_active', 'settle')) >= 1 and
+    sum(1 for l in lines if l.startswith('w ')) >= 2,
+    features=sync_features,
+    rule=("5-40 operations (writes of 0/10/300/5000/100000 bytes, deletes, explicit fsyncdata, lifecycle calls, "
+          "settle, restarts) under a dirty-byte limit from {0,1,100,4096,100000,32 MiB}; after every step the complete "
+          "tap trace (create/open/write offset+len/sync with published size, index header rewrites with blob_size and "
+          "written bit) and the size/un-synced counters of every blob; predicates: header synced before first record, "
+          "index marked complete only after a covering blob sync and then synced, nothing un-synced after explicit "
+          "fsyncdata or close of the active blob, un-synced bytes <= limit at quiescence; non-trivial = >=2 writes "
+          "and an explicit sync/close/dump"),
+    assumptions=['sync_all makes data durable (OS promise)', 'quiescence = worker queue drained and no blocking closure running'],
+)
+
+PROPS['C07'] = dict(
+    gen=lambda rng, tier: gen.harm_scenario(rng, size=tier),
+    p_cmds={'snap', 'trace', 'restart', 'open', 'r', 'c', 'ram', 'counts'},
+    impl_only_cmds={'trace'}, tolerate_err_after_damage=True,
+    oracle_cmds={'r', 'c', 'ram', 'states'}, py_oracle=oracle_c07,
+    count={'quick': 80, 'thorough': 1200}, timeout=1800,
+    nontrivial=lambda lines: any('bdmg=' in l for l in lines) or sum(1 for l in lines if l.startswith('restart')) >= 2,
+    features=lambda lines: kv_features(lines) | {('damage ' + l.split('=')[1].split(':')[1]) for l in lines if 'bdmg=' in l},
+    rule=("6-40 operations incl. restarts (eager/lazy) and between-session damage of blob files (magic, record-header "
+          "byte, data byte, truncated tail) that leads to quarantine; after every step a byte snapshot of every *.blob "
+          "in the work and corrupted directories is compared with the previous one (prefix or moved unchanged; new names "
+          "must carry ids above every id seen); tap trace: no blob write below the end of file, no create of an existing "
+          "blob name; queries at quiescent points must issue no file operation; non-trivial = a quarantine or >=2 restarts"),
+    assumptions=['after the first injected blob damage the model comparison is switched off (nomodel); the Spec oracle keeps following the implementation probe'],
+)
+
+
+def index_features(lines):
+    f = set()
+    klen = 4
+    per = {}
+    for l in lines:
+        t = l.split()
+        if t[0] == 'cfg':
+            for tok in t[1:]:
+                if tok.startswith('key='):
+                    klen = int(tok[4:])
+                    f.add(tok)
+        if t[0] in ('w', 'd'):
+            per[t[1]] = per.get(t[1], 0) + 1
+    rhs = 57 + klen
+    pb = 4096 // rhs
+    fan = (4096 - 16) // (klen + 8) + 1
+    total = sum(per.values())
+    leaves = max(1, (total * rhs + 4095) // 4096)
+    f.add('single leaf' if total * rhs <= 4096 else ('one inner level' if leaves <= fan else 'several inner levels'))
+    if any(v > pb for v in per.values()):
+        f.add('run longer than a block')
+    if any(v == pb for v in per.values()):
+        f.add('run of exactly one block')
+    if any(v > 1 for v in per.values()):
+        f.add('several versions of a key')
+    return f
+
+
+PROPS['C09'] = dict(
+    gen=lambda rng, tier: gen.index_scenario(rng, size=tier),
+    p_cmds={'c', 'ram', 'counts'}, oracle_cmds={'c', 'ram', 'counts', 'states'},
+    count={'quick': 40, 'thorough': 300}, timeout=2400,
+    nontrivial=lambda lines: 'single leaf' not in index_features(lines) or 'several versions of a key' in index_features(lines),
+    features=index_features,
+    rule=("one blob filled with a header multiset of a systematic shape (key counts 1..several tree levels, version "
+          "runs of 1,2,3,B/rhs-1,B/rhs,B/rhs+1,3*B/rhs, ties, markers, key lengths {1,4,8,33,128,1000} = fan-out 454..5), "
+          "closed and dumped; contains/read_all_with_deletion_marker through the index FILE for every (sampled) present key "
+          "and absent keys below, between and above; record count; byte image of the index file (hash and filter section "
+          "masked) compared with the L4 model; restart = load back, extend, dump again; non-trivial = more than one leaf or "
+          "several versions of a key"),
+    assumptions=['K <= 2032 (fan-out >= 3): hypothesis of the theorems; the property range is 1..1000'],
+)
